@@ -85,7 +85,9 @@ MEASURES = {
         "measure": "(is-in-memory-object, height of node) lexicographic",
         "sites": {
             "infer->infer#0": "assumed: phase change, the argument is a freshly parsed AST so this branch cannot be taken again",
-            "infer->infer#1": "assumed: passes node.value where `node` aliases the argument, but `node` is re-bound on the str branch, so the structural rule does not apply",
+            # node.value of the argument: `node` is re-bound only under `if not is_supported_ast_node:` (= not isinstance(node, (Module,
+            # Assign, AnnAssign, Call, ClassDef, FunctionDef))), the call sits under isinstance(node, (AnnAssign, Assign))
+            "infer->infer#1": "structural-guarded",
         },
     },
     "_infer_type_and_default_from_quoted+infer_type_and_default": {
